@@ -26,7 +26,9 @@ template <class V> struct XLat
     typedef Shape<V>               S;
     typedef typename S::T          T;
     typedef typename WideOf<T>::type W;
-    enum { D = S::D, NPAIR = 6, NPT = 6 };
+    enum { D = S::D, NPAIR = 6, NPT = 6, FULL = 1 };
+    static const char* suffix () { return ".extreme-bounds"; }
+    static const char* tag () { return "extreme"; }
     static T    LO () { return ElemLimits<T>::lowest (); }
     static T    HI () { return ElemLimits<T>::max (); }
     static void pair (int k, T& mn, T& mx)
@@ -44,6 +46,108 @@ template <class V> struct XLat
     static T point (int k)
     {
         switch (k) { case 0: return LO (); case 1: return (T) -1; case 2: return (T) 0; case 3: return (T) 1; case 4: return (T) 2; default: return HI (); }
+    }
+    static W wide (T v) { return (W) v; }
+};
+
+// ---- second alphabet: BOTH bounds of an axis large and of the SAME sign -------------------------------------
+// In the alphabet above every sum max+min either fits the element type comfortably ((LOWEST,MAX) -> -1, (0,MAX),
+// (LOWEST,1)) or is excluded ((MAX,MAX)); a center() that narrows the sum back to T before halving, or a size()
+// / comparison that goes through a narrowed intermediate, is indistinguishable there. Here max+min lies beyond the
+// range of T on the pairs A-D,G,H while max-min stays small and representable:
+//   A (MAX-1,MAX)  B (MAX/2+1,MAX)  C (LOWEST,LOWEST/2-1)  D (LOWEST,LOWEST+1)  G (MAX,MAX)  H (LOWEST,LOWEST)
+//   E (MAX/4,MAX/2)  F (LOWEST/2,LOWEST/4)   - large, same sign, sum still representable (controls)   and (0,1).
+// (unsigned element types: C (MAX/2,MAX/2+1)  D (MAX/2+1,MAX/2+2)  F (1,MAX)  H (0,0); floating types: "-1"/"+1" is
+// the neighbouring representable value towards zero, MAX/2+1 is MAX/2.)
+// What is judged: size() everywhere (max-min is exactly representable on every pair); center() wherever the
+// statement's "(max+min)/2 as a function of min and max" is DEFINED in the arithmetic the type performs:
+//   * Interval<T> with T narrower than int (short, signed/unsigned char): the operands are promoted to int, the sum
+//     cannot overflow, the quotient lies between min and max and so is representable: judged on EVERY pair;
+//   * int / int64 (signed overflow: undefined), Box<VecN<short>> (the sum is formed in Vec<short>, i.e. narrowed to the
+//     element type, exactly like int for Box<VecN<int>>) and the floating types (max+min rounds to infinity): judged
+//     only on boxes whose every per-axis sum is representable, center() is NOT called / not judged otherwise.
+template <class T> inline T toward_zero (T v) { return std::nextafter (v, (T) 0); }
+inline half toward_zero (half v) { return half (half::FromBits, (unsigned short) (v.bits () - 1)); } // magnitude one ulp smaller, either sign
+template <class T, int Kind> struct SameAlpha; // Kind 0: signed integer, 1: unsigned integer, 2: floating / half
+template <class T> struct SameAlpha<T, 0>
+{
+    static void pair (int k, T lo, T hi, T& mn, T& mx)
+    {
+        switch (k)
+        {
+            case 0: mn = (T) (hi - 1); mx = hi; break;
+            case 1: mn = (T) (hi / 2 + 1); mx = hi; break;
+            case 2: mn = lo; mx = (T) (lo / 2 - 1); break;
+            case 3: mn = lo; mx = (T) (lo + 1); break;
+            case 4: mn = (T) (hi / 4); mx = (T) (hi / 2); break;
+            case 5: mn = (T) (lo / 2); mx = (T) (lo / 4); break;
+            case 6: mn = hi; mx = hi; break;
+            case 7: mn = lo; mx = lo; break;
+            default: mn = (T) 0; mx = (T) 1; break;
+        }
+    }
+};
+template <class T> struct SameAlpha<T, 1>
+{
+    static void pair (int k, T lo, T hi, T& mn, T& mx)
+    {
+        switch (k)
+        {
+            case 0: mn = (T) (hi - 1); mx = hi; break;
+            case 1: mn = (T) (hi / 2 + 1); mx = hi; break;
+            case 2: mn = (T) (hi / 2); mx = (T) (hi / 2 + 1); break;
+            case 3: mn = (T) (hi / 2 + 1); mx = (T) (hi / 2 + 2); break;
+            case 4: mn = (T) (hi / 4); mx = (T) (hi / 2); break;
+            case 5: mn = (T) 1; mx = hi; break;
+            case 6: mn = hi; mx = hi; break;
+            case 7: mn = lo; mx = lo; break;
+            default: mn = (T) 0; mx = (T) 1; break;
+        }
+    }
+};
+template <class T> struct SameAlpha<T, 2>
+{
+    static void pair (int k, T lo, T hi, T& mn, T& mx)
+    {
+        const T two (2), four (4); // halving / quartering the ends of the range is exact (no subnormals involved)
+        switch (k)
+        {
+            case 0: mn = toward_zero (hi); mx = hi; break;
+            case 1: mn = hi / two; mx = hi; break;
+            case 2: mn = lo; mx = lo / two; break;
+            case 3: mn = lo; mx = toward_zero (lo); break;
+            case 4: mn = hi / four; mx = hi / two; break;
+            case 5: mn = lo / two; mx = lo / four; break;
+            case 6: mn = hi; mx = hi; break;
+            case 7: mn = lo; mx = lo; break;
+            default: mn = T (0); mx = T (1); break;
+        }
+    }
+};
+template <class V> struct XSame
+{
+    typedef Shape<V>               S;
+    typedef typename S::T          T;
+    typedef typename WideOf<T>::type W;
+    enum { D = S::D, NPAIR = 9, NPT = 6, FULL = 0 };
+    enum { KIND = std::is_integral<T>::value ? (std::is_signed<T>::value ? 0 : 1) : 2 };
+    static const char* suffix () { return ".same-sign-large-bounds"; }
+    static const char* tag () { return "same-sign"; }
+    static T    LO () { return ElemLimits<T>::lowest (); }
+    static T    HI () { return ElemLimits<T>::max (); }
+    static void pair (int k, T& mn, T& mx) { SameAlpha<T, KIND>::pair (k, LO (), HI (), mn, mx); }
+    static T point (int k)
+    {
+        T a, b;
+        switch (k)
+        {
+            case 0: return LO ();
+            case 1: pair (2, a, b); return b;
+            case 2: return T (0);
+            case 3: pair (1, a, b); return a;
+            case 4: pair (0, a, b); return a;
+            default: return HI ();
+        }
     }
     static W wide (T v) { return (W) v; }
 };
@@ -69,10 +173,9 @@ template <class V> inline std::string pairstr_x (const typename Shape<V>::Box& a
 template <class V, class G> typename std::enable_if<is_scalar_elem<V>::value, unsigned>::type call_major (const typename Shape<V>::Box&) { return 0; }
 template <class V, class G> typename std::enable_if<!is_scalar_elem<V>::value, unsigned>::type call_major (const typename Shape<V>::Box& b) { return b.majorAxis (); }
 
-// V: shape under test, G: generic-template twin (G == V: none)
-template <class V, class G> void extreme_one ()
+// V: shape under test, G: generic-template twin (G == V: none), L: the per-axis alphabet (XLat / XSame)
+template <class V, class G, class L = XLat<V>> void extreme_one ()
 {
-    typedef XLat<V>         L;
     typedef Shape<V>        S;
     typedef typename S::T   T;
     typedef typename S::Box B;
@@ -82,20 +185,24 @@ template <class V, class G> void extreme_one ()
     const bool integral = std::is_integral<T>::value;
     const int  D = S::D;
     const std::string K = S::kind ();
-    const std::string X = ".extreme-bounds";
+    const std::string X = L::suffix ();
+    const std::string TG = L::tag ();
+    // center(): the operands are promoted to int (Interval of an element type narrower than int) => the sum cannot wrap
+    const bool promoted = integral && is_scalar_elem<V>::value && sizeof (T) < sizeof (int);
     auto& R = vf::R ();
     const uint64_t NB = ex::ipow (L::NPAIR, D), NP = ex::ipow (L::NPT, D);
     const W WLO = L::wide (L::LO ()), WHI = L::wide (L::HI ());
 
-    struct BX { B b; GB g; W mn[4], mx[4]; int k[4]; bool empty, canon, inf, vol, size_ok, center_ok; };
+    struct BX { B b; GB g; W mn[4], mx[4]; int k[4]; bool empty, canon, inf, vol, size_ok, center_ok, sum_beyond; };
     std::vector<BX> boxes (NB);
     long long n_partinf = 0, n_minonly = 0, n_maxonly = 0, n_fullinf = 0, n_canonaxis = 0, n_canon = 0, n_ptaxis = 0;
+    long long n_sum_beyond_judged = 0, n_sum_beyond_skipped = 0, n_sum_fits_large = 0;
     for (uint64_t i = 0; i < NB; ++i)
     {
         BX& x = boxes[i];
         ex::decode (i, L::NPAIR, D, x.k);
         V mn, mx; G gmn, gmx;
-        x.empty = false; x.canon = true; x.inf = true; x.vol = true; x.size_ok = true; x.center_ok = true;
+        x.empty = false; x.canon = true; x.inf = true; x.vol = true; x.size_ok = true; x.center_ok = true; x.sum_beyond = false;
         bool some_inf = false, minonly = false, maxonly = false, canonaxis = false, ptaxis = false;
         for (int a = 0; a < D; ++a)
         {
@@ -112,10 +219,13 @@ template <class V, class G> void extreme_one ()
             if (x.mn[a] != WLO && x.mx[a] == WHI && x.mn[a] <= x.mx[a]) maxonly = true;
             if (!(x.mx[a] > x.mn[a])) x.vol = false;
             if (x.mn[a] == x.mx[a]) ptaxis = true;
-            if (x.mn[a] == WHI && x.mx[a] == WHI) x.center_ok = false;             // max+min overflows
+            // max+min not representable in T: defined only where the operands are promoted to int (see XSame); for the
+            // first alphabet this is the pair (MAX,MAX) alone
+            if (x.mx[a] + x.mn[a] > WHI || x.mx[a] + x.mn[a] < WLO) { x.sum_beyond = true; if (!promoted) x.center_ok = false; }
             if (integral && x.mx[a] >= x.mn[a] && x.mx[a] - x.mn[a] > WHI) x.size_ok = false; // max-min overflows
         }
         if (x.empty) { x.center_ok = false; x.size_ok = true; } // size() of an empty box returns 0 before subtracting
+        if (!x.empty) { if (x.sum_beyond) { if (x.center_ok) ++n_sum_beyond_judged; else ++n_sum_beyond_skipped; } else if (!L::FULL) ++n_sum_fits_large; }
         x.b = B (mn, mx);
         if (twin) x.g = GB (gmn, gmx);
         if (x.inf) ++n_fullinf; else if (some_inf) ++n_partinf;
@@ -222,7 +332,7 @@ template <class V, class G> void extreme_one ()
 
     // ---- box x box: true iff both non-empty and the sets share a point; symmetric ---------------------
     long long n_pair_overlap = 0, n_pair_disj = 0, n_pair_empty = 0;
-    for (uint64_t i = 0; i < NB; ++i)
+    for (uint64_t i = 0; i < (L::FULL ? NB : 0); ++i)
         for (uint64_t j = 0; j < NB; ++j)
         {
             const BX &a = boxes[i], &b = boxes[j];
@@ -234,12 +344,12 @@ template <class V, class G> void extreme_one ()
             if (twin && a.g.intersects (b.g) != got) R.fail ("generic-vs-specialisation.intersects(Box)" + X, pairstr_x<V> (a.b, b.b), vf::fmt (got), vf::fmt (!got));
             if (a.empty || b.empty) ++n_pair_empty; else if (want) ++n_pair_overlap; else ++n_pair_disj;
         }
-    trans += (long long) (NB * NB) * (twin ? 3 : 2);
+    if (L::FULL) trans += (long long) (NB * NB) * (twin ? 3 : 2);
 
     // ---- extendBy from every non-empty box and the canonical empty box (the harness-wide interpretation: starts and
     //      arguments are non-inverted or canonically empty): result = smallest box containing both -------------
     long long n_ext_to_extreme = 0, n_ext = 0;
-    for (uint64_t i = 0; i < NB; ++i)
+    for (uint64_t i = 0; i < (L::FULL ? NB : 0); ++i)
     {
         const BX& s = boxes[i];
         if (s.empty && !s.canon) continue;
@@ -275,20 +385,31 @@ template <class V, class G> void extreme_one ()
     trans += n_ext * (twin ? 2 : 1);
 
     R.add ("states", (long long) (NB + NP));
-    R.add ("evaluations", (long long) (NB * NP + NB * NB) + n_ext);
+    R.add ("evaluations", (long long) (NB * NP + (L::FULL ? NB * NB : 0)) + n_ext);
     R.add ("transitions", trans);
     R.add ("extreme_boxes", (long long) NB);
-    R.cls ("extreme.box.infinite-on-some-axes-only", n_partinf);
-    R.cls ("extreme.box.only-min-at-LOWEST", n_minonly); R.cls ("extreme.box.only-max-at-MAX", n_maxonly);
-    R.cls ("extreme.box.infinite-on-every-axis", n_fullinf);
-    R.cls ("extreme.box.canonically-inverted-on-some-axes-only", n_canonaxis);
-    R.cls ("extreme.box.single-point-axis-at-MAX", n_ptaxis);
-    R.cls ("extreme.point.inside", n_member_in); R.cls ("extreme.point.outside", n_member_out);
-    R.cls ("extreme.pair.overlap", n_pair_overlap); R.cls ("extreme.pair.disjoint", n_pair_disj); R.cls ("extreme.pair.empty-operand", n_pair_empty);
-    R.cls ("extreme.extendBy.bound-moves-to-LOWEST-or-MAX", n_ext_to_extreme);
-    R.cls ("extreme.size-called", n_sizecalls); R.cls ("extreme.center-called", n_centercalls);
-    if (!integral) R.cls ("extreme.size-not-representable(+inf)", n_sizeinf);
-    if (is_half<T>::value) R.cls ("half.extreme-boxes", (long long) NB);
+    R.cls (TG + ".point.inside", n_member_in); R.cls (TG + ".point.outside", n_member_out);
+    R.cls (TG + ".size-called", n_sizecalls); R.cls (TG + ".center-called", n_centercalls);
+    if (L::FULL)
+    {
+        R.cls ("extreme.box.infinite-on-some-axes-only", n_partinf);
+        R.cls ("extreme.box.only-min-at-LOWEST", n_minonly); R.cls ("extreme.box.only-max-at-MAX", n_maxonly);
+        R.cls ("extreme.box.infinite-on-every-axis", n_fullinf);
+        R.cls ("extreme.box.canonically-inverted-on-some-axes-only", n_canonaxis);
+        R.cls ("extreme.box.single-point-axis-at-MAX", n_ptaxis);
+        R.cls ("extreme.pair.overlap", n_pair_overlap); R.cls ("extreme.pair.disjoint", n_pair_disj); R.cls ("extreme.pair.empty-operand", n_pair_empty);
+        R.cls ("extreme.extendBy.bound-moves-to-LOWEST-or-MAX", n_ext_to_extreme);
+        if (!integral) R.cls ("extreme.size-not-representable(+inf)", n_sizeinf);
+        if (is_half<T>::value) R.cls ("half.extreme-boxes", (long long) NB);
+    }
+    else
+    {
+        R.cls ("same-sign.box.single-point-axis-at-MAX-or-LOWEST", n_ptaxis);
+        R.cls ("same-sign.center.every-axis-sum-representable(judged)", n_sum_fits_large);
+        R.cls ("same-sign.center.sum-beyond-element-range(not called: arithmetic in T)", n_sum_beyond_skipped);
+    }
+    // max+min beyond the range of T but formed in int by promotion (Interval<short/char>): judged, either alphabet
+    if (promoted) R.cls ("center.sum-beyond-element-range.promoted-to-int(judged)", n_sum_beyond_judged);
 }
 
 template <class T> bool run_extremes (bool)
@@ -297,6 +418,18 @@ template <class T> bool run_extremes (bool)
     extreme_one<Vec2<T>, G2<T>> ();
     extreme_one<Vec3<T>, G3<T>> ();
     extreme_one<Vec4<T>, Vec4<T>> ();
+    // second alphabet (both bounds large, same sign): per-box predicates, membership, size, center, majorAxis
+    extreme_one<T, T, XSame<T>> ();
+    extreme_one<Vec2<T>, G2<T>, XSame<Vec2<T>>> ();
+    extreme_one<Vec3<T>, G3<T>, XSame<Vec3<T>>> ();
+    extreme_one<Vec4<T>, Vec4<T>, XSame<Vec4<T>>> ();
+    // Interval of the character types (narrower than int, like short; no Vec/Box of them is instantiated by the library):
+    // second alphabet only, run with the short stage
+    if (std::is_same<T, short>::value)
+    {
+        extreme_one<signed char, signed char, XSame<signed char>> ();
+        extreme_one<unsigned char, unsigned char, XSame<unsigned char>> ();
+    }
     return true;
 }
 
